@@ -30,50 +30,50 @@ var initCmd = &cobra.Command{
 			return errors.New("fail to get current path")
 		}
 		goitDir := filepath.Join(curPath, ".goit")
-		if err := os.Mkdir(goitDir, os.ModePerm); err != nil {
-			return fmt.Errorf("%w: %s", ErrIOHandling, goitDir)
+
+		// build the repository in a temporary directory and move it into place in one step, so that an
+		// interrupted init never leaves a partial .goit behind (which init would then refuse to complete)
+		tmpDir := filepath.Join(curPath, ".goit.tmp")
+		if err := os.RemoveAll(tmpDir); err != nil {
+			return fmt.Errorf("%w: %s", ErrIOHandling, tmpDir)
+		}
+		if err := os.Mkdir(tmpDir, os.ModePerm); err != nil {
+			return fmt.Errorf("%w: %s", ErrIOHandling, tmpDir)
 		}
 
 		// make .goit/config file
-		configFile := filepath.Join(goitDir, "config")
-		if _, err := os.Create(configFile); err != nil {
+		configFile := filepath.Join(tmpDir, "config")
+		cf, err := os.Create(configFile)
+		if err != nil {
 			return fmt.Errorf("%w: %s", ErrIOHandling, configFile)
 		}
+		cf.Close()
 
 		// make .goit/HEAD file and write main branch
-		headFile := filepath.Join(goitDir, "HEAD")
+		headFile := filepath.Join(tmpDir, "HEAD")
 		f, err := os.Create(headFile)
 		if err != nil {
 			return fmt.Errorf("%w: %s", ErrIOHandling, headFile)
 		}
-		defer f.Close()
 		// set 'main' as default branch
 		if _, err := f.WriteString("ref: refs/heads/main"); err != nil {
+			f.Close()
+			return fmt.Errorf("%w: %s", ErrIOHandling, headFile)
+		}
+		if err := f.Close(); err != nil {
 			return fmt.Errorf("%w: %s", ErrIOHandling, headFile)
 		}
 
-		// make .goit/objects directory
-		objectsDir := filepath.Join(goitDir, "objects")
-		if err := os.Mkdir(objectsDir, os.ModePerm); err != nil {
-			return fmt.Errorf("%w: %s", ErrIOHandling, objectsDir)
+		// make .goit/objects, .goit/refs, .goit/refs/heads and .goit/refs/tags directories
+		for _, dir := range []string{"objects", "refs", filepath.Join("refs", "heads"), filepath.Join("refs", "tags")} {
+			dirPath := filepath.Join(tmpDir, dir)
+			if err := os.Mkdir(dirPath, os.ModePerm); err != nil {
+				return fmt.Errorf("%w: %s", ErrIOHandling, dirPath)
+			}
 		}
 
-		// make .goit/refs directory
-		refsDir := filepath.Join(goitDir, "refs")
-		if err := os.Mkdir(refsDir, os.ModePerm); err != nil {
-			return fmt.Errorf("%w: %s", ErrIOHandling, refsDir)
-		}
-
-		// make .goit/refs/heads directory
-		headsDir := filepath.Join(refsDir, "heads")
-		if err := os.Mkdir(headsDir, os.ModePerm); err != nil {
-			return fmt.Errorf("%w: %s", ErrIOHandling, headsDir)
-		}
-
-		// make .goit/refs/tags directory
-		tagsDir := filepath.Join(refsDir, "tags")
-		if err := os.Mkdir(tagsDir, os.ModePerm); err != nil {
-			return fmt.Errorf("%w: %s", ErrIOHandling, tagsDir)
+		if err := os.Rename(tmpDir, goitDir); err != nil {
+			return fmt.Errorf("%w: %s", ErrIOHandling, goitDir)
 		}
 
 		// print out message for initialization success
